@@ -192,6 +192,7 @@ def gen_consts():
 def coq_make(targets=None, timeout=3000):
     """(Re)build the Coq development; returns (ok, output)."""
     with Lock("coq"):
+        write_coqproject()
         if not os.path.exists(os.path.join(COQ, "Makefile")) or \
                 os.path.getmtime(os.path.join(COQ, "Makefile")) < os.path.getmtime(os.path.join(COQ, "_CoqProject")):
             sh("coq_makefile -f _CoqProject -o Makefile", cwd=COQ, check=True)
@@ -200,25 +201,47 @@ def coq_make(targets=None, timeout=3000):
         return rc == 0, out
 
 
-def build_model():
-    """Extract and build ocaml/modelrun (after coq_make of Extract.vo)."""
-    with Lock("ocaml"):
-        src = os.path.join(COQ, "model.ml")
+def slices():
+    return sorted(os.path.basename(p)[len("Extract_"):-2] for p in
+                  __import__("glob").glob(os.path.join(COQ, "Extract_*.v")))
+
+
+def build_model(slice_):
+    """Build ocaml/modelrun_<slice> from coq/model_<slice>.ml (written by Extract_<slice>.v),
+    ocaml/helpers.ml and ocaml/run_<slice>.ml (concatenated into one compilation unit)."""
+    with Lock("ocaml-" + slice_):
+        src = os.path.join(COQ, "model_%s.ml" % slice_)
         if not os.path.exists(src):
-            raise BuildError("extraction did not produce model.ml")
-        dst = os.path.join(OCAML, "model.ml")
-        exe = os.path.join(OCAML, "modelrun")
-        need = not os.path.exists(exe) or not os.path.exists(dst) or \
-            open(src, "rb").read() != open(dst, "rb").read() or \
-            os.path.getmtime(exe) < os.path.getmtime(os.path.join(OCAML, "modelrun.ml"))
-        if need:
-            shutil.copy(src, dst)
-            shutil.copy(os.path.join(COQ, "model.mli"), os.path.join(OCAML, "model.mli"))
-            rc, out = sh("ocamlfind ocamlopt -w -a -inline 100 model.mli model.ml modelrun.ml -o modelrun",
-                         cwd=OCAML, timeout=900)
-            if rc != 0:
-                raise BuildError("modelrun build failed:\n" + out[-3000:])
+            raise BuildError("extraction did not produce model_%s.ml" % slice_)
+        parts = [src, os.path.join(OCAML, "helpers.ml"), os.path.join(OCAML, "run_%s.ml" % slice_)]
+        txt = "\n".join(open(p).read() for p in parts)
+        bdir = os.path.join(OCAML, "_b_" + slice_)
+        os.makedirs(bdir, exist_ok=True)
+        allml = os.path.join(bdir, "all.ml")
+        exe = os.path.join(OCAML, "modelrun_" + slice_)
+        if os.path.exists(exe) and os.path.exists(allml) and open(allml).read() == txt:
+            return exe
+        open(allml, "w").write(txt)
+        rc, out = sh("ocamlfind ocamlopt -w -a -inline 100 all.ml -o ../modelrun_%s" % slice_, cwd=bdir, timeout=900)
+        if rc != 0:
+            os.unlink(allml)
+            raise BuildError("modelrun_%s build failed:\n%s" % (slice_, out[-3000:]))
         return exe
+
+
+def write_coqproject():
+    files = []
+    for root, dirs, fs in os.walk(COQ):
+        dirs.sort()
+        for f in sorted(fs):
+            if f.endswith(".v"):
+                files.append(os.path.relpath(os.path.join(root, f), COQ))
+    if "Gen/Consts.v" not in files:
+        files.append("Gen/Consts.v")
+    txt = "-Q . LY\n" + "\n".join(sorted(files)) + "\n"
+    p = os.path.join(COQ, "_CoqProject")
+    if not os.path.exists(p) or open(p).read() != txt:
+        open(p, "w").write(txt)
 
 
 FORBIDDEN = re.compile(r"\b(Admitted|admit|Axiom|Axioms|Parameter|Parameters|Conjecture|Conjectures|"
@@ -260,12 +283,23 @@ ALLOWED_AXIOMS = {
 def check_properties_file(pid):
     """Compile coq/Properties_<pid>.v on its own (its imports were built by coq_make) and parse the
     theorems and their Print Assumptions. Returns dict(ok, theorems=[{name, closed, axioms}], output)."""
-    fn = "Properties_%s.v" % pid
+    import glob
+    fns = sorted(os.path.basename(p) for p in glob.glob(os.path.join(COQ, "Properties_%s*.v" % pid)))
+    res = {"ok": bool(fns), "theorems": [], "output": "", "file": ",".join(fns)}
+    if not fns:
+        res["output"] = "no Properties_%s*.v" % pid
+        return res
+    for fn in fns:
+        r1 = _check_properties_one(fn)
+        res["ok"] = res["ok"] and r1["ok"]
+        res["theorems"] += r1["theorems"]
+        res["output"] += r1["output"]
+    return res
+
+
+def _check_properties_one(fn):
     path = os.path.join(COQ, fn)
     res = {"ok": False, "theorems": [], "output": "", "file": fn}
-    if not os.path.exists(path):
-        res["output"] = "missing " + fn
-        return res
     with Lock("coq"):
         rc, out = sh(["coqc", "-Q", ".", "LY", fn], cwd=COQ, timeout=1800)
     res["output"] = out
@@ -277,7 +311,7 @@ def check_properties_file(pid):
     chunks = [c for c in chunks if c.startswith("Closed under") or c.startswith("Axioms:")]
     ok = (rc == 0)
     for i, nm in enumerate(names):
-        ent = {"name": nm, "closed": False, "axioms": [], "checked": rc == 0}
+        ent = {"name": nm, "file": fn, "closed": False, "axioms": [], "checked": rc == 0}
         if nm in printed and printed.index(nm) < len(chunks):
             ch = chunks[printed.index(nm)]
             if ch.startswith("Closed under"):
